@@ -114,6 +114,7 @@ package types
 //@   ensures native: !strings.Contains(fullPath, "/") ==> len(result.Trace) == 0 && result.Base == fullPath
 //@   ensures short_paths_are_native: len(parts) <= 2 ==> len(result.Trace) == 0
 //@   ensures hops_are_pairs: 2 * len(result.Trace) <= len(parts) && (forall k int :: 0 <= k && k < len(result.Trace) ==> result.Trace[k].PortId == parts[2 * k] && result.Trace[k].ChannelId == parts[2 * k + 1] && (channeltypes.IsValidChannelID(parts[2 * k + 1]) || clienttypes.IsValidClientID(parts[2 * k + 1])))
+//@   ensures second_hop_needs_valid_id: len(result.Trace) >= 2 ==> len(parts) >= 4 && result.Trace[1].ChannelId == parts[3] && (channeltypes.IsValidChannelID(parts[3]) || clienttypes.IsValidClientID(parts[3]))
 //@   ensures base_is_rest: result.Base == joinFrom(parts, "/", 2 * len(result.Trace))
 //@   ensures stops_at_first_non_hop: 2 * len(result.Trace) + 1 < len(parts) && len(parts) > 2 ==> !(channeltypes.IsValidChannelID(parts[2 * len(result.Trace) + 1]) || clienttypes.IsValidClientID(parts[2 * len(result.Trace) + 1]))
 //@   ensures round_trip: result.Base != "" ==> traceText(result.Trace, len(result.Trace)) + result.Base == fullPath
@@ -128,7 +129,7 @@ package types
 
 //@ contract (Hop).Validate
 //@   pure
-//@   ensures validators_pass: err == nil ==> host.PortIdentifierValidator(h.PortId) == nil && host.ChannelIdentifierValidator(h.ChannelId) == nil
+//@   ensures validators_pass: (err == nil) == (host.PortIdentifierValidator(h.PortId) == nil && host.ChannelIdentifierValidator(h.ChannelId) == nil)
 //@   ensures no_separator: err == nil ==> !contains(h.PortId, "/") && !contains(h.ChannelId, "/")
 
 //@ contract (Denom).Validate
@@ -137,6 +138,7 @@ package types
 //@   invariant #1 hops_valid_so_far: forall j int :: 0 <= j && j <= rangeindex ==> d.Trace[j].Validate() == nil
 //@   ensures base_not_blank: err == nil ==> strings.TrimSpace(d.Base) != ""
 //@   ensures hops_valid: forall j int :: err == nil && 0 <= j && j < len(d.Trace) ==> d.Trace[j].Validate() == nil
+//@   ensures accepted_when_all_valid: strings.TrimSpace(d.Base) != "" && (forall j int :: 0 <= j && j < len(d.Trace) ==> d.Trace[j].Validate() == nil) ==> err == nil
 
 // ---- bank ledger effects of the keepers the transfer module depends on (C31, C32, C49). The ledger is the ghost
 // component w_led of the world: balances per (address, denomination) and supply per denomination. Every call site in
@@ -199,9 +201,25 @@ package types
 //@   ensures true
 
 //@ contract (FungibleTokenPacketData).ValidateBasic
-//@   ensures true
+//@   pure
+//@   ensures accepted_iff: (err == nil) == (nth(sdkmath.NewIntFromString(ftpd.Amount), 1) && nth(sdkmath.NewIntFromString(ftpd.Amount), 0) > 0 && strings.TrimSpace(ftpd.Sender) != "" && strings.TrimSpace(ftpd.Receiver) != "" && ExtractDenomFromPath(ftpd.Denom).Validate() == nil)
 
 // trackedTotal(w, denom): the transfer module's tracked total-in-escrow of denom in world w, as other modules see it
 // through the TransferKeeper interface (the transfer keeper's own contracts state it over its store: totalEscrowOf)
 //@ spec func trackedTotal(w World, denom string) int
 //@   axiom forall w World, L Ledger, denom string :: trackedTotal(withLedger(w, L), denom) == trackedTotal(w, denom)
+
+// ---- C33: a voucher of a native denomination returns over its channel as the original token
+
+//@ contract PacketDataV1ToV2
+//@   splitrec
+//@   let parts = strings.Split(packetData.Denom, "/")
+//@   lemma split_head: forall p string, c string, D string :: packetData.Denom == p + "/" + c + "/" + D && !contains(p, "/") && !contains(c, "/") ==> len(parts) >= 3 && parts[0] == p && parts[1] == c
+//@   lemma split_rest: forall p string, c string, D string :: packetData.Denom == p + "/" + c + "/" + D && !contains(p, "/") && !contains(c, "/") ==> joinFrom(parts, "/", 2) == D
+//@   let den = ExtractDenomFromPath(packetData.Denom)
+//@   lemma at_least_one_hop: forall p string, c string, D string :: packetData.Denom == p + "/" + c + "/" + D && !contains(p, "/") && !contains(c, "/") && (channeltypes.IsValidChannelID(c) || clienttypes.IsValidClientID(c)) ==> len(den.Trace) >= 1
+//@   lemma at_most_one_hop: len(parts) < 4 || !(channeltypes.IsValidChannelID(parts[3]) || clienttypes.IsValidClientID(parts[3])) ==> len(den.Trace) <= 1
+//@   lemma one_hop_shape: forall p string, c string, D string :: packetData.Denom == p + "/" + c + "/" + D && !contains(p, "/") && !contains(c, "/") && len(den.Trace) == 1 ==> den.Trace[0].PortId == p && den.Trace[0].ChannelId == c && den.Base == D
+//@   ensures fields_copied: err == nil ==> result0.Sender == packetData.Sender && result0.Receiver == packetData.Receiver && result0.Memo == packetData.Memo && result0.Token.Amount == packetData.Amount && result0.Token.Denom == ExtractDenomFromPath(packetData.Denom)
+//@   ensures accepted_iff_valid: (err == nil) == (packetData.ValidateBasic() == nil)
+//@   ensures returning_native_denom_parses_back: forall p string, c string, D string :: err == nil && packetData.Denom == p + "/" + c + "/" + D && !contains(p, "/") && !contains(c, "/") && (channeltypes.IsValidChannelID(c) || clienttypes.IsValidClientID(c)) ==> len(result0.Token.Denom.Trace) == 1 && result0.Token.Denom.Trace[0].PortId == p && result0.Token.Denom.Trace[0].ChannelId == c && result0.Token.Denom.Base == D
